@@ -29,8 +29,9 @@ TIERS = {
     # C14: 98 (class, parameter) pairs; index // 98 = variant: 0,1 enumerate the catalogue on a full model, >= 2
     # place catalogue faults at random points of seeded histories (nops applies to history mode only)
     "C14": {"quick": (98 * 2 + 60, 400, 16), "thorough": (98 * 2 + 3000, 400, 16)},
+    "C15": {"quick": (128, 14, 16), "thorough": (5000, 30, 16)},
 }
-LEVEL = {"C01": "exploration", "C16": "exploration", "C14": "fault_enumeration"}
+LEVEL = {"C01": "exploration", "C16": "exploration", "C14": "fault_enumeration", "C15": "fault_enumeration"}
 WORKER_TIMEOUT = {"quick": 900, "thorough": 4 * 3600}
 
 
